@@ -326,7 +326,8 @@ class TermFlow:
     def run(self, body, stack, events, guards, depth=0):
         """list of (stack, events, guards) at the end of the block, one per path"""
         states = [(list(stack), list(events), list(guards))]
-        for node in body:
+        from .masm import expand
+        for node in expand(self.m, body, inline=False):
             nxt = []
             for st, ev, gd in states:
                 if node[0] == "ins":
